@@ -2,8 +2,11 @@ package main
 
 import (
 	"fmt"
+	"go/ast"
+	"go/constant"
 	"go/token"
 	"go/types"
+	"strings"
 
 	"golang.org/x/tools/go/ssa"
 )
@@ -34,6 +37,8 @@ func propC15(w *World, r *Report) {
 	RunCursorAdvance(w, r, w.LibFuncs())
 	RunLookupZero(w, r)
 	r.Floor("cursoradvance", 1)
+	RunRecordEffect(w, r)
+	RunLigPrefix(w, r)
 }
 
 func checkFindLookups(w *World, r *Report) {
@@ -576,4 +581,168 @@ func blockNeverContinues(b *ssa.BasicBlock) bool {
 		}
 	}
 	return false
+}
+
+// RunRecordEffect: kern.Read folds every pair record of every accepted
+// subtable into the result map (add, override or minimum).  In the loop that
+// reads the records no path from the head of an iteration back to the head
+// may bypass the result map: a record that is skipped on the strength of its
+// own value (0, say) cannot reset or raise what an earlier subtable stored.
+func RunRecordEffect(w *World, r *Report) {
+	r.Rule("recordeffect: in kern.Read every path around the pair-record loop consults or updates the result map (a lookup or an update of the map the function returns): no record is dropped before it has been combined with what earlier subtables stored")
+	fn := w.Func("kern.Read")
+	if fn == nil {
+		r.Fatal("kern.Read does not resolve")
+		return
+	}
+	// the result map: the map value returned with a nil error
+	isRes := func(v ssa.Value) bool {
+		for d := 0; d < 4; d++ {
+			switch x := v.(type) {
+			case *ssa.MakeMap:
+				return true
+			case *ssa.ChangeType:
+				v = x.X
+			case *ssa.Phi:
+				if len(x.Edges) == 0 {
+					return false
+				}
+				v = x.Edges[0]
+			default:
+				return false
+			}
+		}
+		return false
+	}
+	touch := map[*ssa.BasicBlock]bool{}
+	for _, b := range fn.Blocks {
+		for _, in := range b.Instrs {
+			switch x := in.(type) {
+			case *ssa.MapUpdate:
+				if isRes(x.Map) {
+					touch[b] = true
+				}
+			case *ssa.Lookup:
+				if isRes(x.X) {
+					touch[b] = true
+				}
+			}
+		}
+	}
+	// innermost loop containing a touching block
+	var loop *natLoop
+	for _, l := range naturalLoops(fn) {
+		has := false
+		for b := range l.body {
+			if touch[b] {
+				has = true
+			}
+		}
+		if has && (loop == nil || len(l.body) < len(loop.body)) {
+			loop = l
+		}
+	}
+	key := r.MkKey("recordeffect", "kern.Read", "pair-record loop")
+	if loop == nil {
+		r.Fail("recordeffect", key, w.Pos(fn.Pos()), "no loop of kern.Read touches the result map", nil)
+		r.Floor("recordeffect", 1)
+		return
+	}
+	// can a latch be reached from the head without passing a touching block?
+	seen := map[*ssa.BasicBlock]bool{loop.head: true}
+	work := []*ssa.BasicBlock{loop.head}
+	var bypass *ssa.BasicBlock
+	for len(work) > 0 && bypass == nil {
+		b := work[len(work)-1]
+		work = work[:len(work)-1]
+		for _, s := range b.Succs {
+			if s == loop.head {
+				bypass = b
+				break
+			}
+			if !loop.body[s] || touch[s] || seen[s] {
+				continue
+			}
+			seen[s] = true
+			work = append(work, s)
+		}
+	}
+	if bypass == nil {
+		r.OK("recordeffect", key, w.Pos(loop.head.Instrs[0].Pos()), "every path around the loop consults or updates the result map")
+	} else {
+		pos := fn.Pos()
+		for _, in := range bypass.Instrs {
+			if in.Pos().IsValid() {
+				pos = in.Pos()
+			}
+		}
+		r.Fail("recordeffect", key, w.Pos(pos), "an iteration of the pair-record loop can return to the loop head without consulting or updating the result map: the record is dropped, so a pair listed in an override or minimum subtable keeps the value of an earlier subtable", nil)
+	}
+	r.Floor("recordeffect", 1)
+}
+
+// RunLigPrefix: the ligature rules standardLigatures builds are tried in the
+// order of its string table (Gsub4_1 takes the first ligature of a set that
+// matches).  A sequence that is a proper prefix of a later one would always
+// win, so the longer ligature could never be produced.
+func RunLigPrefix(w *World, r *Report) {
+	r.Rule("ligprefix: in the constant string table of standardLigatures no component sequence is a proper prefix of one listed after it (an optional leading ligature character U+FB00..U+FB06 is not part of the sequence): first-match order then finds the longest ligature")
+	pkg := w.All[modPath]
+	if pkg == nil {
+		r.Fatal("root package not loaded")
+		return
+	}
+	fd := findFunc(pkg.Syntax, "standardLigatures")
+	key := r.MkKey("ligprefix", "sfnt.standardLigatures", "string table")
+	if fd == nil {
+		r.Fail("ligprefix", key, "-", "standardLigatures not found", nil)
+		return
+	}
+	info := pkg.TypesInfo
+	var best []string
+	var bestPos token.Pos
+	ast.Inspect(fd.Body, func(n ast.Node) bool {
+		cl, ok := n.(*ast.CompositeLit)
+		if !ok {
+			return true
+		}
+		var strs []string
+		for _, el := range cl.Elts {
+			if kv, ok := el.(*ast.KeyValueExpr); ok {
+				el = kv.Value
+			}
+			tv, ok := info.Types[el]
+			if !ok || tv.Value == nil || tv.Value.Kind() != constant.String {
+				return true
+			}
+			strs = append(strs, constant.StringVal(tv.Value))
+		}
+		if len(strs) > len(best) {
+			best, bestPos = strs, cl.Pos()
+		}
+		return true
+	})
+	if len(best) < 3 {
+		r.Fail("ligprefix", key, w.Pos(fd.Pos()), "no constant string table with the ligature sequences found in standardLigatures", nil)
+		return
+	}
+	seqs := make([]string, len(best))
+	for i, s := range best {
+		rs := []rune(s)
+		if len(rs) > 0 && rs[0] >= 0xFB00 && rs[0] <= 0xFB06 {
+			rs = rs[1:]
+		}
+		seqs[i] = string(rs)
+	}
+	for i := range seqs {
+		for j := i + 1; j < len(seqs); j++ {
+			if len(seqs[i]) < len(seqs[j]) && strings.HasPrefix(seqs[j], seqs[i]) {
+				r.Fail("ligprefix", key, w.Pos(bestPos), fmt.Sprintf("the sequence %q is listed before %q, of which it is a prefix: the shorter ligature always matches first and the longer one is never produced", seqs[i], seqs[j]), nil)
+				r.Floor("ligprefix", 1)
+				return
+			}
+		}
+	}
+	r.OK("ligprefix", key, w.Pos(bestPos), fmt.Sprintf("%d sequences, none a proper prefix of a later one", len(seqs)))
+	r.Floor("ligprefix", 1)
 }
